@@ -1,4 +1,4 @@
-use hashbrown::{HashMap, HashSet};
+use hashbrown::HashMap;
 
 use crate::adt::{AdtMetadata, FieldPosition};
 use crate::evolution::SerializedEvolutionStep;
@@ -13,6 +13,10 @@ pub struct AdtSerializer<'a, 'b, Output: BinaryOutput> {
     buffers: Vec<Option<Vec<u8>>>, // TODO: We can avoid this completely by generating the write_fields in the proper order
     last_index_per_chunk: HashMap<u8, u8>,
     field_indices: HashMap<String, FieldPosition>,
+    // Header entries that carry a field name, rendered when the record is opened: the reader
+    // sees the header before the fields, so these strings must get their ids first.
+    removed_field_entries: Vec<Option<Vec<u8>>>,
+    header_error: Option<Error>,
 }
 
 impl<'a, 'b, Output: BinaryOutput> AdtSerializer<'a, 'b, Output> {
@@ -28,11 +32,38 @@ impl<'a, 'b, Output: BinaryOutput> AdtSerializer<'a, 'b, Output> {
             buffers: Vec::new(),
             last_index_per_chunk: HashMap::new(),
             field_indices: HashMap::new(),
+            removed_field_entries: Vec::new(),
+            header_error: None,
         }
     }
 
     pub fn new(metadata: &'a AdtMetadata, context: &'b mut SerializationContext<Output>) -> Self {
         context.write_u8(metadata.version);
+        let mut removed_field_entries = Vec::with_capacity(metadata.evolution_steps.len());
+        let mut header_error = None;
+        for evolution in &metadata.evolution_steps {
+            let removed_name = match evolution {
+                Evolution::FieldRemoved { name } | Evolution::FieldMadeTransient { name } => {
+                    Some(name)
+                }
+                Evolution::FieldMadeOptional { name } if metadata.removed_fields.contains(name) => {
+                    Some(name)
+                }
+                _ => None,
+            };
+            removed_field_entries.push(removed_name.map(|name| {
+                context.push_buffer(Vec::new());
+                let result = SerializedEvolutionStep::FieldRemoved {
+                    field_name: name.clone(),
+                }
+                .serialize(context);
+                let entry = context.pop_buffer();
+                if let Err(error) = result {
+                    header_error.get_or_insert(error);
+                }
+                entry
+            }));
+        }
         Self {
             metadata,
             context,
@@ -41,6 +72,8 @@ impl<'a, 'b, Output: BinaryOutput> AdtSerializer<'a, 'b, Output> {
                 .collect(),
             last_index_per_chunk: HashMap::new(),
             field_indices: HashMap::new(),
+            removed_field_entries,
+            header_error,
         }
     }
 
@@ -65,10 +98,10 @@ impl<'a, 'b, Output: BinaryOutput> AdtSerializer<'a, 'b, Output> {
 
     pub fn finish(mut self) -> Result<()> {
         if !self.buffers.is_empty() {
-            self.write_evolution_header(
-                &self.metadata.evolution_steps,
-                &self.metadata.removed_fields,
-            )?;
+            if let Some(error) = self.header_error.take() {
+                return Err(error);
+            }
+            self.write_evolution_header(&self.metadata.evolution_steps)?;
             self.write_ordered_chunks()
         } else {
             Ok(())
@@ -100,45 +133,33 @@ impl<'a, 'b, Output: BinaryOutput> AdtSerializer<'a, 'b, Output> {
         }
     }
 
-    fn write_evolution_header(
-        &mut self,
-        evolution_steps: &[Evolution],
-        removed_fields: &HashSet<String>,
-    ) -> Result<()> {
+    fn write_evolution_header(&mut self, evolution_steps: &[Evolution]) -> Result<()> {
         for (v, evolution) in evolution_steps.iter().enumerate() {
-            let step = match evolution {
-                Evolution::InitialVersion => {
+            match evolution {
+                Evolution::InitialVersion | Evolution::FieldAdded { .. } => {
                     let size = self.buffers[v].as_ref().unwrap().len().try_into()?;
-                    Ok(SerializedEvolutionStep::FieldAddedToNewChunk { size })
-                }
-                Evolution::FieldAdded { .. } => {
-                    let size = self.buffers[v].as_ref().unwrap().len().try_into()?;
-                    Ok(SerializedEvolutionStep::FieldAddedToNewChunk { size })
+                    SerializedEvolutionStep::FieldAddedToNewChunk { size }
+                        .serialize(self.context)?;
                 }
                 Evolution::FieldMadeOptional { name } => match self.field_indices.get(name) {
-                    Some(field_position) => Ok(SerializedEvolutionStep::FieldMadeOptional {
-                        position: *field_position,
-                    }),
-                    None => {
-                        if removed_fields.contains(name) {
-                            Ok(SerializedEvolutionStep::FieldRemoved {
-                                field_name: name.clone(),
-                            })
-                        } else {
-                            Err(Error::UnknownFieldReferenceInEvolutionStep(name.clone()))
+                    Some(field_position) => {
+                        SerializedEvolutionStep::FieldMadeOptional {
+                            position: *field_position,
                         }
+                        .serialize(self.context)?;
                     }
+                    None => match &self.removed_field_entries[v] {
+                        Some(entry) => self.context.write_bytes(entry),
+                        None => {
+                            return Err(Error::UnknownFieldReferenceInEvolutionStep(name.clone()))
+                        }
+                    },
                 },
-                Evolution::FieldRemoved { name } => Ok(SerializedEvolutionStep::FieldRemoved {
-                    field_name: name.clone(),
-                }),
-                Evolution::FieldMadeTransient { name } => {
-                    Ok(SerializedEvolutionStep::FieldRemoved {
-                        field_name: name.clone(),
-                    })
+                Evolution::FieldRemoved { .. } | Evolution::FieldMadeTransient { .. } => {
+                    self.context
+                        .write_bytes(self.removed_field_entries[v].as_ref().unwrap());
                 }
-            }?;
-            step.serialize(self.context)?;
+            }
         }
         Ok(())
     }
